@@ -1,0 +1,14 @@
+//go:build verif
+
+// Contracts for package xpair1 (comment-only; read by /verif/govc).
+
+package xpair1
+
+//@ struct pipe
+//@   immutable: p s closeQ
+//@
+//@ struct socket
+//@   lock Mutex level 20
+//@   guarded_by Mutex: closed sizeQ peer recvQLen sendQLen ttl recvExpire sendExpire bestEffort recvQ sendQ
+//@   immutable: closeQ
+//@
